@@ -24,6 +24,10 @@ class WeightModel:
                 continue
             for (b, i, tgt, rv, s) in f.stores():
                 roots = [c for c in root_calls(tgt) if "RwLock::<R, T>::write" in c[1]]
+                # the total may sit in a crate-local newtype (`struct UsedWeight(i64)`): `guard.0` is the total then
+                if roots and tgt[0] == "field" and tgt[2] == "0" and tgt[1][0] == "call":
+                    rv = _unwrap_newtype(rv, tgt[1])
+                    tgt = tgt[1]
                 if not roots or tgt[0] != "call":
                     continue
                 g = roots[0]
@@ -324,6 +328,15 @@ def _guarded_site_sym(self, fn, C, X):
     return False, "no symbolic path of %s reaches the increase" % fn.name
 
 
+
+
+def _unwrap_newtype(e, guard_call):
+    """`guard.0` -> `guard` inside a stored value"""
+    if not isinstance(e, tuple) or not e:
+        return e
+    if e[0] == "field" and e[2] == "0" and e[1][0] == "call" and strip_site(e[1]) == strip_site(guard_call):
+        return e[1]
+    return tuple(_unwrap_newtype(x, guard_call) if isinstance(x, tuple) else x for x in e)
 
 
 def classify_write(rv, guard_call):
